@@ -429,6 +429,10 @@ def main():
                 elif w == 'poly1305':
                     import poly
                     poly.run(fns, tmp)
+                elif w == 'argon2':
+                    import argon
+                    sys.modules.setdefault('kernels', sys.modules['__main__'])
+                    argon.run(fns, tmp)
             except Unsupported as e:
                 tmp.add(w, 'error', 0, 'MIR construct outside the executor: the kernel was refactored beyond what E2 encodes', error='Unsupported: %s' % e)
             except Exception as e:
